@@ -100,22 +100,29 @@ type c14Scenario struct {
 type c14Call struct {
 	Expr string `json:"expr"`
 	Ctx  string `json:"ctx"`
+	// Helpers > 0: the call passes its bindings through the option helpers
+	// (WithNS, WithVariable, WithFunction) - its own set, with $t, the prefix t
+	// and the function tf() bound to values that depend on the number - instead
+	// of handing over the caller-owned maps.
+	Helpers int `json:"helpers,omitempty"`
 }
 
 var c14Scenarios = []c14Scenario{
-	{"same union of the shared variable twice", [][]c14Call{{{"$v | //c", "/"}}, {{"$v | //c", "/"}}}},
-	{"union vs. filter of the shared variable", [][]c14Call{{{"$v | $w", "/"}}, {{"$v[1]", "/"}}}},
-	{"reverse axis vs. union", [][]c14Call{{{"//c/ancestor::*", "/"}}, {{"$w | $v", "/0/0"}}}},
-	{"predicates with a user function", [][]c14Call{{{"//*[y()][1]", "/"}}, {{"//b[y()]/c", "/"}}}},
-	{"two calls per thread", [][]c14Call{{{"count($v)", "/"}, {"$v/..", "/"}}, {{"$v | //b", "/"}, {"(//b)[last()]", "/"}}}},
-	{"three threads, same compiled expression", [][]c14Call{{{"$v | //c", "/"}}, {{"$v | //c", "/0/0"}}, {{"$v | //c", "/"}}}},
-	{"string and number results", [][]c14Call{{{"string($w)", "/"}}, {{"sum(//c) + count($v | $w)", "/"}}}},
-	{"sorting the same descending variable", [][]c14Call{{{"$v[last()]", "/"}}, {{"($v)[1]", "/"}}, {{"$v | $v", "/"}}}},
-	{"attribute and namespace lists of several context nodes", [][]c14Call{{{"(/* | //b)/@*", "/"}}, {{"//*/@*", "/0/0"}}, {{"//*/namespace::*", "/"}}}},
-	{"child lists of several context nodes", [][]c14Call{{{"//*/*", "/"}}, {{"(//b | /*)/node()", "/"}}}},
-	{"node-set comparisons of shared operands", [][]c14Call{{{"//b = //c", "/"}}, {{"//c = //b/c", "/"}}, {{"$v = $w", "/"}}}},
-	{"comparisons and string functions", [][]c14Call{{{"//*[. = //c]", "/"}}, {{"concat(//b, //c) = string($v)", "/0/0"}}}},
-	{"sibling axes over the same child list", [][]c14Call{{{"//d/preceding-sibling::node()", "/"}}, {{"/*/*[1]/following-sibling::node()", "/"}}, {{"//d/preceding-sibling::*[1]", "/"}}}},
+	{"same union of the shared variable twice", [][]c14Call{{{"$v | //c", "/", 0}}, {{"$v | //c", "/", 0}}}},
+	{"union vs. filter of the shared variable", [][]c14Call{{{"$v | $w", "/", 0}}, {{"$v[1]", "/", 0}}}},
+	{"reverse axis vs. union", [][]c14Call{{{"//c/ancestor::*", "/", 0}}, {{"$w | $v", "/0/0", 0}}}},
+	{"predicates with a user function", [][]c14Call{{{"//*[y()][1]", "/", 0}}, {{"//b[y()]/c", "/", 0}}}},
+	{"two calls per thread", [][]c14Call{{{"count($v)", "/", 0}, {"$v/..", "/", 0}}, {{"$v | //b", "/", 0}, {"(//b)[last()]", "/", 0}}}},
+	{"three threads, same compiled expression", [][]c14Call{{{"$v | //c", "/", 0}}, {{"$v | //c", "/0/0", 0}}, {{"$v | //c", "/", 0}}}},
+	{"string and number results", [][]c14Call{{{"string($w)", "/", 0}}, {{"sum(//c) + count($v | $w)", "/", 0}}}},
+	{"sorting the same descending variable", [][]c14Call{{{"$v[last()]", "/", 0}}, {{"($v)[1]", "/", 0}}, {{"$v | $v", "/", 0}}}},
+	{"attribute and namespace lists of several context nodes", [][]c14Call{{{"(/* | //b)/@*", "/", 0}}, {{"//*/@*", "/0/0", 0}}, {{"//*/namespace::*", "/", 0}}}},
+	{"child lists of several context nodes", [][]c14Call{{{"//*/*", "/", 0}}, {{"(//b | /*)/node()", "/", 0}}}},
+	{"node-set comparisons of shared operands", [][]c14Call{{{"//b = //c", "/", 0}}, {{"//c = //b/c", "/", 0}}, {{"$v = $w", "/", 0}}}},
+	{"comparisons and string functions", [][]c14Call{{{"//*[. = //c]", "/", 0}}, {{"concat(//b, //c) = string($v)", "/0/0", 0}}}},
+	{"sibling axes over the same child list", [][]c14Call{{{"//d/preceding-sibling::node()", "/", 0}}, {{"/*/*[1]/following-sibling::node()", "/", 0}}, {{"//d/preceding-sibling::*[1]", "/", 0}}}},
+	{"the same expression under two sets of option-helper bindings", [][]c14Call{{{"count(//c) + $t + tf()", "/", 1}}, {{"count(//c) + $t + tf()", "/", 2}}}},
+	{"option-helper bindings beside caller-owned maps", [][]c14Call{{{"concat(name(//b[1]), $t, count(//t:c))", "/", 1}}, {{"$v[1]", "/", 0}}, {{"concat(count(//b), '|', $t)", "/0/0", 3}}}},
 }
 
 type c14World struct {
@@ -227,7 +234,18 @@ func (w *c14World) exec(c c14Call) (out string) {
 			out = fmt.Sprint("PANIC: ", r)
 		}
 	}()
-	r, err := xsel.Exec(w.ctx(c.Ctx), w.exprs[c.Expr], w.settings()...)
+	settings := w.settings()
+	if c.Helpers > 0 {
+		k := float64(c.Helpers)
+		uri := adoc.URI_U
+		if c.Helpers%2 == 0 {
+			uri = adoc.URI_V
+		}
+		settings = []xsel.ContextApply{xsel.WithNS("p", adoc.URI_U), xsel.WithNS("t", uri), xsel.WithVariable("v", w.slotV), xsel.WithVariable("w", w.slotW), xsel.WithVariable("t", xsel.Number(k)),
+			xsel.WithFunction("y", w.fnMap[xsel.XmlName{Local: "y"}]),
+			xsel.WithFunction("tf", func(xsel.Context, ...xsel.Result) (xsel.Result, error) { return xsel.Number(k * 100), nil })}
+	}
+	r, err := xsel.Exec(w.ctx(c.Ctx), w.exprs[c.Expr], settings...)
 	return w.outcome(r, err)
 }
 
@@ -556,7 +574,7 @@ func C14Race(args []string) int {
 	for round := 0; round < 6; round++ {
 		sc := c14Scenario{Name: "broad", Threads: [][]c14Call{{}}}
 		for _, e := range c14BroadMenu {
-			sc.Threads[0] = append(sc.Threads[0], c14Call{e, []string{"/", "/0/0", "/0"}[len(sc.Threads[0])%3]})
+			sc.Threads[0] = append(sc.Threads[0], c14Call{e, []string{"/", "/0/0", "/0"}[len(sc.Threads[0])%3], 0})
 		}
 		w := newC14World(sc)
 		w.tree.free = true
@@ -681,7 +699,7 @@ func C14(c *run.Check) {
 			c.Set("race_pass", "skipped (no -race binary)")
 		}
 	}
-	c.Rule = "library: 13 scenarios of 2-3 threads x 1-2 real xsel.Exec calls sharing one cursor tree (through proxy cursors whose every accessor is a scheduling point), the compiled expressions, caller-owned binding maps and a caller-owned node-set variable with spare capacity; ALL schedules with at most 2 (thorough: 3) preemptions enumerated depth-first; in every execution each call must return its serial result, the shared slices must be unchanged at every scheduling point and deep fingerprints of tree, expressions and maps unchanged at the end; plus a read-only audit (full fingerprint of everything shared at EVERY scheduling point of two schedules per scenario + static scan for writes to package-level variables) that extends the verdict to all interleavings by independence of read-only steps (library_reduction). Worker bodies: 7 scenarios of 2-3 documents (XML with attributes and namespace declarations, HTML, JSON) read at the same time through the library's parsers with a scheduling point at every Pull and every 12-byte Read, ALL schedules with at most 3 (thorough: 4) preemptions, every tree built compared node by node with the tree built when the document is read alone (read_* keys). CLI: the real main() under the same scheduler, see cli_* keys. Auxiliary: the same bodies free-running under the race detector"
+	c.Rule = "library: 15 scenarios of 2-3 threads x 1-2 real xsel.Exec calls sharing one cursor tree (through proxy cursors whose every accessor is a scheduling point), the compiled expressions, caller-owned binding maps and a caller-owned node-set variable with spare capacity; ALL schedules with at most 2 (thorough: 3) preemptions enumerated depth-first; in every execution each call must return its serial result, the shared slices must be unchanged at every scheduling point and deep fingerprints of tree, expressions and maps unchanged at the end; plus a read-only audit (full fingerprint of everything shared at EVERY scheduling point of two schedules per scenario + static scan for writes to package-level variables) that extends the verdict to all interleavings by independence of read-only steps (library_reduction). Worker bodies: 7 scenarios of 2-3 documents (XML with attributes and namespace declarations, HTML, JSON) read at the same time through the library's parsers with a scheduling point at every Pull and every 12-byte Read, ALL schedules with at most 3 (thorough: 4) preemptions, every tree built compared node by node with the tree built when the document is read alone (read_* keys). CLI: the real main() under the same scheduler, see cli_* keys. Auxiliary: the same bodies free-running under the race detector"
 	c.Assume("scheduling points are tree accesses, user-function calls and (CLI) goroutine/channel/WaitGroup/print operations; interleavings below that granularity are covered only by the auxiliary race-detector pass")
 }
 
